@@ -148,3 +148,13 @@ From RS Require Import RawLoad RawLoadStmts RawLoadFacts.
 Theorem C06_loading_a_valid_listing_never_panics : stmt_load_raw_total.
 Proof. exact load_raw_total. Qed.
 Print Assumptions C06_loading_a_valid_listing_never_panics.
+
+(** THE STAGES BEFORE THE FLOW SOLVER COMPOSE (StartStageFacts.v): for every listing that conforms to the documented format,
+    every arrangement of the default depots, unsigned limits and u64 totals, the listing resolves and loads, there is a
+    vehicle type, the slot distribution returns an allotment within the track counts, every listed type finds its slots and
+    the covering circulation handed to the flow solver is feasible.  (The i64 guard of the network construction is the one
+    exception: FlowGuardStmts.v, known finding F2.) *)
+From RS Require Import StartStageStmts StartStageFacts.
+Theorem C06_start_stage_returns : stmt_start_stage_returns.
+Proof. exact start_stage_returns. Qed.
+Print Assumptions C06_start_stage_returns.
